@@ -82,6 +82,23 @@ pub fn gen_case(seed: u64, idx: usize) -> Case {
     Case { opts, lines, rschedule, rdelays_ms, wplan, p_points, gen: Some(gp) }
 }
 
+/// `git diff --word-diff` output: no -/+ lines; changes are marked inside the lines, and delta
+/// renders every hunk line as it comes (nothing may be held back).
+pub fn to_word_diff(case: &mut Case) {
+    case.opts.args.retain(|a| a != "--color-only");
+    for l in case.lines.iter_mut() {
+        match l.kind {
+            LineKind::Minus | LineKind::Plus | LineKind::Context => {
+                let body: String = l.text.chars().skip(1).collect();
+                l.text = if l.kind == LineKind::Context { format!(" {}", body) } else { format!(" {} [-old-]{{+new+}}", body) };
+                l.kind = LineKind::Context;
+            }
+            _ => {}
+        }
+    }
+    case.lines.retain(|l| l.kind != LineKind::NoNewline);
+}
+
 pub fn check_case(case: &Case) -> (Vec<Violation>, CaseStats) {
     let mut stats = CaseStats::default();
     let mut out: Vec<Violation> = Vec::new();
